@@ -42,7 +42,7 @@ FLT_TEXTS = ["0", "-0", "1", "1.5", "-2.25", ".5", "5.", "1e10", "1e38", "3.4028
              "1e", "e5", ".", "-", "9007199254740993", "0.5", "0.25", "1.0", "1.0000001", "0.99999994"]
 PT_TEXTS = ["0.25", "0.25 0.75", "0.25,0.75", "1 1", "1.5 0", "0 1.5", "0 -0.1", "-0", "-0 -0", "nan", "nan nan", "0.5x", "0.5,", "1e39", "1 1e39",
             "0.25 abc", "abc", "", "0.25  0.5", "0.25 ", "0.25;0.5", "0.25/0.5:9", "1 2 3", "3.4028235e38 1", "3.4028236e38", "inf", "1e-46 0",
-            "0.5\t0.25", "0x1p-1 0x1p-2", "1.0000001", "1 1.0000001", "2", "100 200", " ", "  \t", "\t0.5", "0.5 ", " 0.5 0.25", "0", "1"]
+            "0.5\t0.25", "0x1p-1 0x1p-2", "1.0000001", "1 1.0000001", "2", "100 200", " ", "  \t", "\t0.5", "0.5 ", " 0.5 0.25", "0", "1", "0.25  ", "0.25 \t", "0.25   0.5 ", "0.25 0.5  ", "0.5\t\t", "1 \t 1", "0.25 ,0.5", "  0.25  "]
 STR_TEXTS = ["", "a", "Hello", "two words", " lead", "trail ", "x" * 255, "y" * 256, "\xff\x80\x7f\x01", "#ff0000", "12", "log", "z" * 1000]
 COL_TEXTS = ["black", "red", "green", "blue", "cyan", "magenta", "yellow", "white", "RED", "Blue", "red ", "red\tx", "redx", "re", " red", "blue green",
              "#f00", "#ff0000", "#00ff00", "#0000ff", "#ff000080", "#12345678", "#123456ff", "#12345600", "#ff", "#ffff", "#", "#ff00000", "#gg0000",
